@@ -199,7 +199,7 @@ func pmTerm(p pmCfg, sc scCfg) string {
 	case 1:
 		return "(PMPlugin MetaNil)"
 	}
-	return "(PMPlugin " + CApp("Meta", CBool(p.VerValid), CBool(sc.Minver != 3), capsTerm(p.Caps)) + ")"
+	return "(PMPlugin " + CApp("Meta", CBool(p.VerValid), capsTerm(p.Caps)) + ")"
 }
 
 func optBool(k int) string {
@@ -226,7 +226,7 @@ func scTerm(s scCfg) string {
 	return CApp("mk_sc",
 		[]string{"SigEmpty", "SigBad", "SigOK"}[s.Sig],
 		[]string{"PAbsent", "PInvalid", "PName"}[s.PAttr],
-		CBool(s.Minver == 2), CBool(s.NonStr), CBool(s.Crit || (s.PAttr == 0 && s.Minver != 0)),
+		CBool(s.Minver == 2), CBool(s.Minver == 3), CBool(s.NonStr), CBool(s.Crit || (s.PAttr == 0 && s.Minver != 0)),
 		CBool(s.Auth != 0), CBool(s.IdentFail), CBool(s.ExpFail), CBool(s.TsFail),
 		[]string{"RevOK", "RevFail", "RevErr", "RevBadShape", "RevBadShape"}[s.Rev],
 		resp,
@@ -277,7 +277,7 @@ func inputTerm(c *lcase) string {
 
 const prelude = `From NV Require Import Base C12_Model.
 Open Scope string_scope.
-Definition sc0 := mk_sc SigOK PAbsent false false false false false false false RevOK (PResp true (Some true) (Some true)) true false true false false false.
+Definition sc0 := mk_sc SigOK PAbsent false false false false false false false false RevOK (PResp true (Some true) (Some true)) true false true false false false.
 Definition n0 := mk_nreq false 1 RefOK false false false [].
 Definition b0 := mk_breq false false false.
 `
